@@ -25,7 +25,7 @@ def main():
     na = []
     for pid in ALL:
         spec = table.PROPS.get(pid)
-        if not spec or not spec.get("claimed", True):
+        if not spec or not spec.get("claimed", True) or pid in getattr(table, "NOT_YET", []):
             na.append({"property_id": pid, "reason": (spec or {}).get("na_reason", "check not built yet in this round (planned, see DESIGN.md section 4)")})
             continue
         checks.append({
